@@ -3,6 +3,13 @@
 import json, subprocess, sys
 
 CHECKS = {
+ "C08": dict(cat="exploration", tech="offline history checker over per-connection event logs with unique ids (exactly once, in order), worker process as crash monitor, canary connection, goroutine census, verif-hook directed schedules, race detector",
+   text="200/6000 histories of 1-16 (thorough: up to 256) concurrent scripted raw clients against a real kmipserver.Server on an in-memory listener with handlers that return ok / typed error / plain error / panic with six kinds of values / block until released / return 200 KiB; clients send whole, in pieces, pipelined, framed-undecodable (4 kinds), garbage, truncated, close while a handler runs, stop reading and close while a big response is written, half-close. Per connection the received id sequence must be a prefix of the sent one and complete when the client drained (verdict only when the server is quiescent); a canary connection is pinged throughout; census at quiescence; Shutdown must return; two directed schedules park the connection goroutine / write loop at the verif hooks while the client disconnects. A worker death with a library frame is a violation.",
+   note="Schedules are sampled apart from the two forced windows. A connection the client half-closed may end short (not judged as unanswered).", ref="§2 C08"),
+ "C15": dict(cat="exploration", tech="per-request sequential register model over handler observations with request-tagged values; concurrent requests and connection sequences; race detector on the accessors",
+   text="Programs of 1-8 items over {set, read, fail, noop} where every stored value carries (request id, item index): 24/2500 rounds of 2-64 goroutines calling HandleRequest at once with yielding handlers (overlap counter proves requests were inside handlers simultaneously) and 24/1500 rounds of 1-16 real connections each sending 6 requests; every read is checked against the model starting empty and any value tagged with another request is a leak, named exactly; race reports on the placeholder accessors are violations.",
+   note="After a failed item both the previous and the empty value are accepted.", ref="§2 C15"),
+
  "C10": dict(cat="exploration", tech="unique-id echo monitor at the client boundary under hook-placed cancellations and 2..32 concurrent callers, with the race detector",
    text="Every call carries a unique id that the scripted server echoes, so each returned response names the request it answers. 200/6000 directed sequences put a cancellation before send, at the verif hook after the tx channel is loaded, at the hook between send and recv (response held back and released late), while the server holds the response, or by a 2 ms deadline, each followed by further calls on the same client; 40/3000 stress rounds run 2..32 goroutines x 6 calls on one client. A call may return an error or its own response only. Hook visit counters prove each window was hit.",
    note="Interleavings are sampled; the send/recv gap is forced through the hook.", ref="§2 C10"),
